@@ -141,5 +141,7 @@ IsTranslationOf(p, s, id) == /\ Len(p) = Len(s) \div 3
                              /\ \A i \in 1..Len(p) : SubSeq(p, i, i) = Code[id][UpCodonAt(s, i)]
 (* the amino-acid letters a code can encode, and the codons of one letter *)
 LettersOf(id) == {Code[id][c] : c \in Codons}
+(* NOTE for TLC: a zero-arity definition is evaluated once and cached only if it is built from plain   *)
+(* TLA+ (no TLCEval, no RECURSIVE operator); everything above is, so Code / Starts / Stops are tables.  *)
 CodonsOf(id, aa) == {c \in Codons : Code[id][c] = aa}
 =============================================================================
